@@ -19,6 +19,8 @@ pub mod vs {
     /// transparent-hasher log (hasher stub kind): were the same bytes fed to hashers #i and #j?
     pub fn streams_equal(i: usize, j: usize) -> bool { crate::stubs::streams_equal(i, j) }
     pub fn streams_reset() { crate::stubs::th_reset() }
+    /// ring stub kind: position table for virtual nodes (node id 0..=4, index 0..=1) and the key position
+    pub fn ring_set(table: [[u64; 2]; 5], key_pos: u64) { unsafe { crate::stubs::RING_VN = table; crate::stubs::RING_KEY = key_pos; } }
     pub const NATIVE: bool = false;
 }
 
@@ -107,6 +109,20 @@ macro_rules! registry {
         #[kani::stub(tracing_core::event::Event::dispatch, crate::stubs::stub_dispatch)]
         #[kani::stub(parking_lot::raw_mutex::RawMutex::lock_slow, crate::stubs::pl_lock_slow)]
         #[kani::stub(parking_lot::raw_mutex::RawMutex::unlock_slow, crate::stubs::pl_unlock_slow)]
+        pub fn $name() { $body }
+    };
+    (@one $name:ident, $unwind:literal, ring, $body:expr) => {
+        #[kani::proof]
+        #[kani::unwind($unwind)]
+        #[kani::stub(alloc::fmt::format, crate::stubs::stub_format)]
+        #[kani::stub(core::arch::x86_64::__cpuid_count, crate::stubs::fake_cpuid)]
+        #[kani::stub(tracing_core::callsite::DefaultCallsite::interest, crate::stubs::stub_interest)]
+        #[kani::stub(tracing::__macro_support::__is_enabled, crate::stubs::stub_is_enabled)]
+        #[kani::stub(tracing_core::event::Event::dispatch, crate::stubs::stub_dispatch)]
+        #[kani::stub(parking_lot::raw_mutex::RawMutex::lock_slow, crate::stubs::pl_lock_slow)]
+        #[kani::stub(parking_lot::raw_mutex::RawMutex::unlock_slow, crate::stubs::pl_unlock_slow)]
+        #[kani::stub(redis_sim::replication::hash_ring::HashRing::hash_virtual_node, crate::stubs::ring_vnode)]
+        #[kani::stub(redis_sim::replication::hash_ring::HashRing::hash_key, crate::stubs::ring_key)]
         pub fn $name() { $body }
     };
     (@one $name:ident, $unwind:literal, alloc, $body:expr) => {
